@@ -212,10 +212,12 @@ def isPathValid (path : Str) : Except Site Bool :=
 
 def regexMetaChars : Str := "\\.+*?()|[]{}^$".toList
 
+def isMeta (c : Char) : Bool := regexMetaChars.contains c
+
 /-- `regexp.QuoteMeta` -/
 def quoteMeta : Str → Str
   | [] => []
-  | c :: cs => if regexMetaChars.contains c then '\\' :: c :: quoteMeta cs else c :: quoteMeta cs
+  | c :: cs => if isMeta c then '\\' :: c :: quoteMeta cs else c :: quoteMeta cs
 
 /-- the text `[legalChars]*?` a `*` is replaced by -/
 def starClass : Str := '[' :: (Generated.wildcardLegalChars.toList ++ "]*?".toList)
@@ -234,13 +236,18 @@ def wildcardRegexpText (query : Str) (exact : Bool) : Str :=
 def regexScan : Nat → Str → Bool
   | _, [] => true
   | skip + 1, _ :: cs => regexScan skip cs
-  | 0, '\\' :: d :: r => regexMetaChars.contains d && regexScan 0 r
-  | 0, ['\\'] => false
-  | 0, '.' :: '*' :: r => regexScan 0 r
   | 0, c :: cs =>
-    if hasPrefix (c :: cs) starClass then regexScan (starClass.length - 1) cs
+    if c = '\\' then
+      match cs with
+      | d :: r => isMeta d && regexScan 0 r
+      | [] => false
+    else if c = '.' then
+      match cs with
+      | d :: r => decide (d = '*') && regexScan 0 r
+      | [] => false
+    else if hasPrefix (c :: cs) starClass then regexScan (starClass.length - 1) cs
     else if c = '$' then cs.isEmpty
-    else !regexMetaChars.contains c && regexScan 0 cs
+    else !isMeta c && regexScan 0 cs
 
 /-- `regexp.MustCompile(text)` does not panic (for texts of the shape `^body` / `^body$`) -/
 def compiles (text : Str) : Bool :=
